@@ -50,18 +50,22 @@ Theorem C18_admin_requires_admin :
 Proof. exact admin_requires_admin. Qed.
 Print Assumptions C18_admin_requires_admin.
 
-(* Selecting a database (UseDatabase, OpenSession) needs sysadmin or some permission on it. *)
+(* Selecting a database needs sysadmin or some permission on it; UseDatabase judges by the user
+   record of the credential, OpenSession by the record as it is now (it authenticates afresh, so a
+   permission revoked / replaced after an earlier login counts as revoked / replaced). *)
 Theorem C18_select_requires_permission :
   forall g c, In g gates -> (class_of g = Some ClSelect \/ class_of g = Some ClCred) -> gt_rpc g <> "Login" ->
               cx_cfg c = CfgAuth -> decide g c = Through ->
-              cx_kind c = KSys \/ (cx_tgt c = DOwn /\ cx_kind c <> KNone).
+              judged_kind g c = KSys \/ (cx_tgt c = DOwn /\ judged_kind g c <> KNone).
 Proof. exact select_requires_permission. Qed.
 Print Assumptions C18_select_requires_permission.
 
 (* With authentication on, every RPC that is neither public nor carries its own user name and
    password refuses a request without credential, with an expired one, or with one issued before
-   the user was deactivated or re-permissioned — EXCEPT a login token of a user name that still has a
-   second live login (see the refutation below). *)
+   the user was deactivated or re-permissioned — cx_st ranges over REVOKE (SReperm) and over GRANTs
+   that replace the permission by a lower (SLowered) or a higher (SRaised) one alike — EXCEPT a login
+   token of a user name that still has a second live login (see the refutation below).  Whether
+   SetActiveUser / ChangePermission invalidate unconditionally is read from the generated gate table. *)
 Theorem C18_invalid_session_refused_partial :
   forall g c cl, In g gates -> class_of g = Some cl -> needs_login cl = true ->
                  cx_cfg c = CfgAuth -> (cx_hdr c = HNone \/ cx_st c <> SValid) ->
